@@ -54,17 +54,30 @@ class World:
         else:
             issue = [sc.perm_all(1) if kind == "all" else sc.perm_explicit(ps, 1) for kind, ps in groups]
         self.aa = p.issue(self.root, "aa", issue=issue, **live)
-        self.ats = []
+        # a station holds ONE ticket for everything it sends, or SEPARATE tickets per service (CAM / VAM / DENM):
+        # `tickets[k]` in the order they are installed (the signer takes the first one covering the ITS-AID)
+        self.tickets = []
         for k in range(n):
-            app = apps[k] if apps else rng.choice([[36, 37, 638, 99], [36, 37, 99], [36, 37], [638, 37, 99]])
-            self.ats.append(p.issue(self.aa, app=app, **live))
+            if apps:
+                spec = apps[k] if apps[k] and isinstance(apps[k][0], list) else [apps[k]]
+            elif rng.random() < 0.35:
+                spec = rng.choice([[[36, 37, 99], [638]], [[36], [638, 37]], [[638], [36, 37, 99]], [[36, 99], [37], [638]]])
+            else:
+                spec = [rng.choice([[36, 37, 638, 99], [36, 37, 99], [36, 37], [638, 37, 99]])]
+            self.tickets.append([p.issue(self.aa, app=app, **live) for app in spec])
+        self.ats = [t[0] for t in self.tickets]
         self.groups = [(g["subjectPermissions"][0], [e["psid"] for e in (g["subjectPermissions"][1] or [])])
                        for g in self.aa.certificate["toBeSigned"]["certIssuePermissions"]]
-        self.apps = [[e["psid"] for e in a.certificate["toBeSigned"]["appPermissions"]] for a in self.ats]
+        self.apps = [[[e["psid"] for e in a.certificate["toBeSigned"]["appPermissions"]] for a in ts] for ts in self.tickets]
+        self.owner = {sc.hid8(a.certificate): k for k, ts in enumerate(self.tickets) for a in ts}
         self.A = sc.Abs()
         self.A.register_backend(p.backend)
-        for c in [self.root, self.aa] + self.ats:
+        for c in [self.root, self.aa] + [a for ts in self.tickets for a in ts]:
             self.A.cert(c.certificate)
+
+    def app_of(self, k):
+        """all ITS-AIDs station k holds a ticket for"""
+        return sorted({x for app in self.apps[k] for x in app})
 
 
 # ------------------------------------------------------------------------------------------------ profile oracle
@@ -138,9 +151,10 @@ class Sim:
         self.reals = [None] * len(self.lines)
         self.auth = [None] * n          # per receiver: authenticity oracle (known certificates)
         self.knows = [set() for _ in range(n)]      # oracle: tickets a receiver must know (pre-loaded / seen in an authentic certificate-carrying packet)
-        self.last_cert = [None] * n     # oracle: time of the last CAM/VAM of k that carried the certificate
-        self.asked = [False] * n        # oracle: a peer asked for k's ticket since then
-        self.pending = {}               # (R, S) -> "await-R-cam" | "await-S-cam"
+        # the oracle's ghosts are kept per TICKET (HashedId8), independent of how the sign service keeps its timers:
+        self.last_cert = {}             # ticket -> time of the last CAM/VAM signed with it that carried the certificate
+        self.asked = {}                 # ticket -> a peer asked for it since then
+        self.pending = {}               # (R, ticket of S) -> "await-R-cam" | "await-S-cam"
         self.events = []                # replayable log
 
     def joined(self, k):
@@ -148,17 +162,19 @@ class Sim:
 
     def do_join(self, k):
         w = self.w
-        pre = [w.ats[j] for j in self.pre[k]]
-        s = sc.RouterStation(w.pki.backend, k + 1, [w.root], [w.aa], pre, own=[w.ats[k]],
+        pre = [a for j in self.pre[k] for a in w.tickets[j]]
+        s = sc.RouterStation(w.pki.backend, k + 1, [w.root], [w.aa], pre, own=w.tickets[k],
                              lat=415000000 + 100 * k, lon=21000000 + 100 * k)
         self.st[k] = s
         self.auth[k] = AuthOracle([w.root], [w.aa], pre)
         self.knows[k] = {sc.hid8(a.certificate) for a in pre}
         ls = sc.new_station_lines(w.A, k + 1, [w.root], [w.aa], pre)
-        ls.append(f"addown {k + 1} {w.A.cert(w.ats[k].certificate)} {w.A.cert(w.aa.certificate)}")
+        for a in w.tickets[k]:
+            ls.append(f"addown {k + 1} {w.A.cert(a.certificate)} {w.A.cert(w.aa.certificate)}")
         self.lines += ls
         self.reals += [None] * (len(ls) - 1) + ["ok " + w.A.dump_store(s.lib)]
         self.ctx.cover(f"join_preloaded_{len(pre)}")
+        self.ctx.cover(f"station_with_{len(w.tickets[k])}_tickets")
 
     def case(self):
         return {"kind": "scenario", "id": self.sid, "n": self.n, "join": self.join, "pre": self.pre, "apps": self.w.apps, "groups": self.w.groups,
@@ -170,7 +186,9 @@ class Sim:
         now = self.clock.ms
         aid = KIND_AID[kind]
         self.events.append([now - T0, k, kind, len(payload)])
-        app = [e["psid"] for e in w.ats[k].certificate["toBeSigned"]["appPermissions"]]
+        app = w.app_of(k)
+        multi = len(w.tickets[k]) > 1
+        fid = "C05-F2" if multi else None       # a station signing with several tickets: region of finding C05-F2
         try:
             frames = s.send(kind, payload, now)
             err = None
@@ -211,33 +229,44 @@ class Sim:
         sb = A.keys.signed_by(tbs_bytes, sd["signature"])
         self.reals.append(f"sg:{sgt} inl:{inl} rc:{rc} loc:{int('generationLocation' in hi)} key:{sb if sb is not None else '-'} "
                           + s.dump_sign(A))
+        # ---- oracle: which of the station's tickets signed (any own ticket covering the ITS-AID is honest)
+        cands = [a for a, ap in zip(w.tickets[k], w.apps[k]) if aid in ap]
+        try:
+            used8 = bytes(sg[1]) if sg[0] == "digest" else sc.hid8(sg[1][0])
+        except Exception:  # noqa: BLE001
+            used8 = None
+        ticket = next((a for a in cands if sc.hid8(a.certificate) == used8), cands[0] if cands else w.ats[k])
+        tid = sc.hid8(ticket.certificate)
         # ---- oracle: profile
-        for b in profile_problems(kind, sd, w.ats[k], now, aid):
+        for b in profile_problems(kind, sd, ticket, now, aid):
             ctx.violation(f"{kind} of station {k}: clause 7.1 profile violated: {b}", self.case())
         if not plain.endswith(payload):
             ctx.violation(f"{kind} of station {k}: signed payload does not end with the upper-layer payload", self.case())
         carries = sg[0] == "certificate"
         if kind in ("cam", "vam"):
-            must = self.last_cert[k] is None or now - self.last_cert[k] > 1000 or self.asked[k]
+            last = self.last_cert.get(tid)
+            must = last is None or now - last > 1000 or self.asked.get(tid, False)
             if must and not carries:
-                why = ("first message" if self.last_cert[k] is None else
-                       f"{now - self.last_cert[k]} ms since last inclusion" if now - self.last_cert[k] > 1000 else "a peer asked for it")
-                ctx.violation(f"{kind} of station {k} signed with digest although the certificate was due ({why})", self.case())
+                why = ("its certificate was never included before" if last is None else
+                       f"{now - last} ms since its last inclusion" if now - last > 1000 else "a peer asked for it")
+                ctx.violation(f"{kind} of station {k} signed with the digest of its ticket for {w.apps[k][w.tickets[k].index(ticket)]} "
+                              f"although the certificate was due ({why})"
+                              + (f"; the station signs with {len(w.tickets[k])} tickets" if multi else ""), self.case(), fid)
             if carries:
-                self.last_cert[k] = now
-                self.asked[k] = False
+                self.last_cert[tid] = now
+                self.asked[tid] = False
             ctx.cover(f"{kind}_signer_{'certificate' if carries else 'digest'}{'_due' if must else ''}")
         else:
             ctx.cover(f"{kind}_signer_{'certificate' if carries else 'digest'}")
         if "inlineP2pcdRequest" in hi:
             ctx.cover("emit_with_inline_request")
-        ctx.nontrivial((kind, carries, "inlineP2pcdRequest" in hi, "requestedCertificate" in hi))
-        return frame, sd, plain, carries
+        ctx.nontrivial((kind, carries, "inlineP2pcdRequest" in hi, "requestedCertificate" in hi, multi))
+        return frame, sd, plain, carries, tid
 
-    def deliver(self, k, kind, payload, frame, sd, plain, carries):
-        """frame of sender k to every joined station"""
+    def deliver(self, k, kind, payload, frame, sd, plain, carries, h8):
+        """frame of sender k (signed with its ticket `h8`) to every joined station"""
         ctx, w, A = self.ctx, self.w, self.w.A
-        h8 = sc.hid8(w.ats[k].certificate)
+        fid = "C05-F2" if len(w.tickets[k]) > 1 else None
         hi = sd["tbsData"]["headerInfo"]
         for r in range(self.n):
             if r == k or not self.joined(r):
@@ -264,15 +293,15 @@ class Sim:
                 if not accepted:
                     ctx.violation(f"{kind} of station {k} ({'carrying its certificate' if carries else 'ticket known to the receiver'}) "
                                   f"not accepted by station {r}: {real.split()[0]}", self.case())
-                if (r, k) in self.pending and self.pending[(r, k)] == "await-S-cam" and kind in ("cam", "vam"):
+                if (r, h8) in self.pending and self.pending[(r, h8)] == "await-S-cam" and kind in ("cam", "vam"):
                     ctx.cover("p2pcd_completed")
-                self.pending.pop((r, k), None)
+                self.pending.pop((r, h8), None)
             else:
-                if (r, k) in self.pending and self.pending[(r, k)] == "await-S-cam" and kind in ("cam", "vam") and not accepted:
-                    ctx.violation(f"P2PCD: station {r} asked for the ticket of station {k}, whose next {kind} still is not accepted "
-                                  f"({real.split()[0]})", self.case())
-                if not accepted and (r, k) not in self.pending:
-                    self.pending[(r, k)] = "await-R-cam"
+                if (r, h8) in self.pending and self.pending[(r, h8)] == "await-S-cam" and kind in ("cam", "vam") and not accepted:
+                    ctx.violation(f"P2PCD: station {r} asked for the ticket of station {k}, whose next {kind} signed with it still "
+                                  f"is not accepted ({real.split()[0]})", self.case(), fid)
+                if not accepted and (r, h8) not in self.pending:
+                    self.pending[(r, h8)] = "await-R-cam"
                     ctx.cover("p2pcd_started")
             if accepted:
                 if inds and bytes(inds[0].data) != bytes(payload):
@@ -281,15 +310,16 @@ class Sim:
                     ctx.cover("indication_payload_equal")
                 if carries:
                     self.knows[r].add(h8)
-                # a request for r's own ticket inside an accepted CAM/VAM
-                own3 = sc.hid8(w.ats[r].certificate)[-3:]
-                if own3 in [bytes(x) for x in hi.get("inlineP2pcdRequest", [])]:
-                    self.asked[r] = True
+                # a request for one of r's own tickets inside an accepted CAM/VAM
+                wanted = [bytes(x) for x in hi.get("inlineP2pcdRequest", [])]
+                for a in w.tickets[r]:
+                    if sc.hid8(a.certificate)[-3:] in wanted:
+                        self.asked[sc.hid8(a.certificate)] = True
         # the sender's CAM moves pending requests of the sender (as receiver R = k) forward
         if kind in ("cam", "vam"):
-            for (r, s_), v in list(self.pending.items()):
-                if r == k and v == "await-R-cam" and self.joined(s_):
-                    self.pending[(r, s_)] = "await-S-cam"
+            for (r, t8), v in list(self.pending.items()):
+                if r == k and v == "await-R-cam" and self.joined(w.owner[t8]):
+                    self.pending[(r, t8)] = "await-S-cam"
 
 
 def honest_world(ctx, w, sim):
@@ -297,13 +327,14 @@ def honest_world(ctx, w, sim):
     they must come back signed and verifiable (independent chain checker + Certificate.verify)"""
     roots = {sc.hid8(w.root.certificate): w.root.certificate}
     cas = {sc.hid8(w.aa.certificate): w.aa.certificate}
-    for k, at in enumerate(w.ats):
-        ok, why = sc.chain_ok(at.certificate, roots, cas)
-        ctx.evals()
-        if not ok or not at.verify(w.pki.backend):
-            ctx.violation(f"honest ticket of station {k} for ITS-AIDs {w.apps[k]} under an AA with permission groups {w.groups} "
-                          f"is refused by the issuing API / Certificate.verify ({why}): its holder cannot sign, nobody accepts it",
-                          sim.case())
+    for k, ts in enumerate(w.tickets):
+        for at, ap in zip(ts, w.apps[k]):
+            ok, why = sc.chain_ok(at.certificate, roots, cas)
+            ctx.evals()
+            if not ok or not at.verify(w.pki.backend):
+                ctx.violation(f"honest ticket of station {k} for ITS-AIDs {ap} under an AA with permission groups {w.groups} "
+                              f"is refused by the issuing API / Certificate.verify ({why}): its holder cannot sign, nobody accepts it",
+                              sim.case())
     ctx.cover(f"aa_groups_{len(w.groups)}{'_all' if any(k == 'all' for k, _ in w.groups) else ''}")
 
 
@@ -320,7 +351,7 @@ def run_scenario(ctx, w, clock, n, n_events, sid, script=None):
                 sim.do_join(k)
         senders = [k for k in range(n) if sim.joined(k)]
         k = rng.choice(senders)
-        app = [x["psid"] for x in w.ats[k].certificate["toBeSigned"]["appPermissions"]]
+        app = w.app_of(k)
         kinds = [kd for kd, aid in KIND_AID.items() if aid in app]
         kind = rng.choice(kinds + [kd for kd in kinds if kd in ("cam", "vam")] * 2 + (["other", "vam"] if rng.random() < 0.05 else []))
         payload = bytes(rng.randrange(256) for _ in range(rng.choice([1, 5, 30, 200])))
@@ -343,8 +374,8 @@ def compare(ctx, sims):
         pos += len(s.lines)
 
 
-def check_scenarios(ctx, clock, n_scen, tag):
-    sims = []
+def check_scenarios(ctx, clock, n_scen, tag, extra=()):
+    sims = list(extra)
     for i in range(n_scen):
         n = ctx.rng.choice([2, 2, 3, 3, 4, 5])
         w = World(ctx.rng, n)
@@ -362,7 +393,12 @@ def root_only_scenario():
     """C05-KF1: a receiver that trusts the root but lacks the sender's AA never accepts, P2PCD for CA certificates
     notwithstanding.  Returns (reproduced?, description)"""
     import random
-    w = World(random.Random(5), 2)
+    # a single-group AA: the known finding is about the missing AA certificate, not about the layout of its permissions
+    w = World(random.Random(5), 2, apps=[[36, 37, 638, 99], [36, 37]], groups=[("explicit", [36, 37, 638, 99])])
+    for at in w.ats:
+        if not at.verify(w.pki.backend):
+            # precondition of the scenario broken (honest tickets do not verify): judged by honest_world(), not here
+            return False, "scenario not runnable: an honest ticket under a single-group AA does not verify"
     S = sc.RouterStation(w.pki.backend, 1, [w.root], [w.aa], [], own=[w.ats[0]])
     R = sc.RouterStation(w.pki.backend, 2, [w.root], [], [], own=[], lat=415000100, lon=21000100)   # root only
     Rsend = sc.RouterStation(w.pki.backend, 3, [w.root], [w.aa], [], own=[w.ats[1]], lat=415000100, lon=21000100)
@@ -389,6 +425,7 @@ def run(ctx):
     router_mod.Timer = sc.NoTimer
     try:
         with rs.VClock(T0) as clock, rs.quiet():
+            recorded = []
             for name, c in corpus("C05"):
                 ctx.cover("corpus_cases")
                 if c.get("kind") == "kf1":
@@ -396,7 +433,9 @@ def run(ctx):
                     ctx.extra.setdefault("variant", {})["C05-KF1"] = "reproduced (code as is)" if rep else "not reproduced (repaired)"
                     if rep:
                         ctx.violation("receiver trusting only the root never accepts a station whose AA it lacks: " + desc, c, "C05-KF1")
-            check_scenarios(ctx, clock, ctx.scale(24, 800), "s")
+                elif c.get("kind") == "scenario":
+                    recorded.append(run_recorded(ctx, clock, c, f"corpus:{name}"))
+            check_scenarios(ctx, clock, ctx.scale(24, 650), "s", extra=recorded)
     finally:
         router_mod.Timer = threading.Timer
 
@@ -413,6 +452,29 @@ def search(ctx):
         ctx.model_ok = ok
 
 
+def run_recorded(ctx, clock, case, sid):
+    """structural replay of a recorded scenario: same stations / AA permission groups / ticket ITS-AIDs / join times /
+    pre-loading / event kinds and times, fresh keys"""
+    import random
+    rng = random.Random(1)
+    n = case["n"]
+    w = World(rng, n, case.get("apps"), case.get("groups"))
+    sim = Sim(ctx, w, clock, n, sid)
+    sim.join, sim.pre = case["join"], case["pre"]
+    honest_world(ctx, w, sim)
+    for (t, k, kind, plen) in case["events"]:
+        clock.ms = T0 + t
+        for j in range(n):
+            if not sim.joined(j) and sim.join[j] <= t - 10_000:
+                sim.do_join(j)
+        if not sim.joined(k):
+            sim.do_join(k)
+        res = sim.emit(k, kind, bytes(plen))
+        if res is not None:
+            sim.deliver(k, kind, bytes(plen), *res)
+    return sim
+
+
 def replay(ctx, obj):
     case = obj.get("case", obj)
     if case.get("kind") == "kf1":
@@ -421,28 +483,11 @@ def replay(ctx, obj):
         print(desc)
         return rep
     if case.get("kind") == "scenario":
-        # structural replay: same stations / join times / pre-loading / event kinds and times, fresh keys
-        import random
         router_mod.Timer = sc.NoTimer
         try:
             with rs.VClock(T0) as clock, rs.quiet():
                 ctx.model_ok = False
-                rng = random.Random(1)
-                n = case["n"]
-                w = World(rng, n, case.get("apps"), case.get("groups"))
-                sim = Sim(ctx, w, clock, n, "replay")
-                sim.join, sim.pre = case["join"], case["pre"]
-                honest_world(ctx, w, sim)
-                for (t, k, kind, plen) in case["events"]:
-                    clock.ms = T0 + t
-                    for j in range(n):
-                        if not sim.joined(j) and sim.join[j] <= t - 10_000:
-                            sim.do_join(j)
-                    if not sim.joined(k):
-                        sim.do_join(k)
-                    res = sim.emit(k, kind, bytes(plen))
-                    if res is not None:
-                        sim.deliver(k, kind, bytes(plen), *res)
+                run_recorded(ctx, clock, case, "replay")
         finally:
             router_mod.Timer = threading.Timer
         for v in ctx.violations[:5]:
